@@ -7,6 +7,8 @@ MCAlphabet == {1, 2, 3, 4, 5}
 MCMaxLen   == 4
 MCSeeds    == {<<>>}
 MCPos      == -1..10
+\* n.5 and n.9: cut off, not rounded
+MCTenths   == {5, 9}
 \* "", "b", CJK+"a", "3" (a text that is also passed as the number 3.0)
 MCNewTexts == {<<>>, <<2>>, <<8, 1>>, <<13>>}
 MCFindLen  == 2
